@@ -4,6 +4,7 @@ mod explore;
 mod pdfgen;
 mod props;
 mod refread;
+mod sched;
 mod walker;
 
 use crate::core::{CheckMeta, Tally, Tier};
@@ -25,6 +26,7 @@ fn registry() -> Vec<(&'static str, RunFn, ReplayFn)> {
         ("C09", props::c09::run, props::c09::replay),
         ("C10", props::c10::run, props::c10::replay),
         ("C11", props::c11::run, props::c11::replay),
+        ("C12", props::c12::run, props::c12::replay),
         ("C16", props::c16::run, props::c16::replay),
         ("C17", props::c17::run, props::c17::replay),
         ("C19", props::c19::run, props::c19::replay),
